@@ -546,6 +546,10 @@ def gen_adtest(rng, tier):
         for _ in range(5):
             xs = sorted(rng.choice([0.125, 0.25, 0.5, 0.75, 0.9]) for _ in range(n))
             out.append([n, xs, [7.0, 7.0]])
+    # values very close to 0 and to 1 (PIT values of over-confident forecasts): still inside the open interval
+    out.append([3, [2.0 ** -40, 0.5, 1 - 2.0 ** -40], [7.0, 7.0]])
+    out.append([2, [2.0 ** -50, 2.0 ** -45], [7.0, 7.0]])
+    out.append([4, [2.0 ** -30, 0.25, 0.75, 1 - 2.0 ** -30], [7.0, 7.0]])
     out.append([3, [0.5, NAN, 0.7], [7.0, 7.0]])
     out.append([3, [0.5, 1.5, 0.7], [7.0, 7.0]])
     out.append([3, [-0.5, 0.5, 0.7], [7.0, 7.0]])
